@@ -100,7 +100,19 @@ class GenT(edzed.FSM):
             raise RuntimeError("enter_a failed")
 
 
-BLOCKS = ['Input', 'Counter', 'GenT', 'Timer', 'InputExp']
+BLOCKS = ['Input', 'Counter', 'GenT', 'Timer', 'InputExp', 'TimeDate', 'TimeSpan']
+
+# the virtual wall clock starts at 2001-09-09 01:46:40 (a Sunday)
+TD_ARGS = {
+    'A': dict(times=[[[1, 0, 0, 0], [3, 0, 0, 0]]]),
+    'B': dict(times=[[[3, 0, 0, 0], [4, 0, 0, 0]], [[1, 46, 41, 0], [1, 46, 43, 500000]]], weekdays=[7],
+              dates=[[[9, 1], [9, 30]]]),
+    'none': dict(),
+    'S1': dict(span=[[[2001, 9, 9, 1, 0, 0, 0], [2001, 9, 9, 1, 46, 42, 0]]]),
+    'S2': dict(span=[[[1999, 1, 1, 0, 0, 0, 0], [1999, 1, 2, 0, 0, 0, 0]],
+                     [[2001, 9, 9, 1, 46, 44, 0], [2030, 1, 1, 0, 0, 0, 0]]]),
+    'empty': dict(span=[]),
+}
 
 
 def alphabet(kind):
@@ -115,6 +127,10 @@ def alphabet(kind):
                 ('go', 'hold'), ('nosuch', None)]
     if kind == 'Timer':
         return [('start', None), ('start', 6), ('stop', None), ('tick',), ('to_expiry',)]
+    if kind == 'TimeDate':
+        return [('reconfig', 'A'), ('reconfig', 'B'), ('reconfig', 'none'), ('tick',), ('nosuch', None)]
+    if kind == 'TimeSpan':
+        return [('reconfig', 'S1'), ('reconfig', 'S2'), ('reconfig', 'empty'), ('tick',), ('nosuch', None)]
     return [('put', None), ('put', 6), ('tick',), ('to_expiry',)]
 
 
@@ -141,7 +157,7 @@ def configs(tier):
             out.append(dict(mode='failstart', fail=fs, pos=pos))
     # restart with start-up traffic: another block's first output sends an event (plain, filtered
     # out, conditional resolving to 'no event') to the persistent block before / after its restore
-    for kind in BLOCKS:
+    for kind in BLOCKS[:5]:
         for ev in ('none', 'cond-none', 'cond-put', 'filtered', 'plain'):
             for order in (0, 1):
                 for srcval in (False, True):
@@ -162,6 +178,10 @@ def make_blocks(kind, sync, exp):
         blk = GenT('blk', **kw)
     elif kind == 'Timer':
         blk = edzed.Timer('blk', t_on=3, **kw)
+    elif kind == 'TimeDate':
+        blk = edzed.TimeDate('blk', **TD_ARGS['A'], **kw)
+    elif kind == 'TimeSpan':
+        blk = edzed.TimeSpan('blk', **TD_ARGS['S1'], **kw)
     else:
         blk = edzed.InputExp('blk', duration=3, expired='EXP', initdef='iv', **kw)
     aux = edzed.Counter('aux', persistent=True, initdef=7)
@@ -190,7 +210,7 @@ def first_run(cfg):
     snaps, viol = [], []
     storage = {"<Counter 'gone'>": 5, 'edzed-foo': 'keep', 'other-key': 1}
     del ELOG[:]
-    with Sim(base_unix_us=BASE_US) as sim:
+    with Sim(base_unix_us=BASE_US, cron=True) as sim:
         loop = sim.loop
         blk, aux = make_blocks(kind, sync, exp)
         sim.circuit.set_persistent_data(storage)
@@ -199,6 +219,17 @@ def first_run(cfg):
         def wall():
             return BASE_US + loop.now_us
 
+        current = {'cfg': 'A' if kind == 'TimeDate' else 'S1'}
+
+        def ref_td_state():
+            """Normal form of the current configuration, straight from the arguments."""
+            args = TD_ARGS[current['cfg']]
+            if kind == 'TimeSpan':
+                return sorted(copy.deepcopy(args['span']))
+            return {'times': None if 'times' not in args else sorted(copy.deepcopy(args['times'])),
+                    'dates': None if 'dates' not in args else sorted(copy.deepcopy(args['dates'])),
+                    'weekdays': None if 'weekdays' not in args else sorted(args['weekdays'])}
+
         def snap(label, truth=None):
             st = copy.deepcopy(storage)
             if truth is None:
@@ -206,6 +237,9 @@ def first_run(cfg):
                     truth = live_state(blk)
                 except Exception:   # pylint: disable=broad-except
                     pass
+            if kind in ('TimeDate', 'TimeSpan') and truth is not None and truth[0] != ref_td_state():
+                viol.append(('state-is-not-the-configuration',
+                             f"{label}: get_state() = {truth[0]!r}, configured {ref_td_state()!r}"))
             snaps.append((label, st, truth, wall(), live_state(aux)))
             fresh = sync or label in ('init', 'stop')      # otherwise the storage may be stale
             for what, val in (('block state', truth[0] if truth else None),
@@ -248,7 +282,11 @@ def first_run(cfg):
                         await loop.sleep_until_us(round(gs[1] * 1e6) - BASE_US)
                 else:
                     data = {}
-                    if kind in ('Input', 'Counter'):
+                    if kind in ('TimeDate', 'TimeSpan'):
+                        if sym[0] == 'reconfig':
+                            data = copy.deepcopy(TD_ARGS[sym[1]])
+                            current['cfg'] = sym[1]
+                    elif kind in ('Input', 'Counter'):
                         if sym[1] is not None and sym[1] != 'novalue':
                             data['value'] = sym[1]
                     elif kind == 'InputExp':
@@ -304,10 +342,16 @@ def restart(cfg, storage, wall_us):
     res = {}
     del ELOG[:]
     start_us = 777 * TICK
-    with Sim(start_us=start_us, base_unix_us=wall_us - start_us) as sim:
+    with Sim(start_us=start_us, base_unix_us=wall_us - start_us, cron=True) as sim:
         loop = sim.loop
         blk, aux = make_blocks(kind, sync, exp)
         st = copy.deepcopy(storage)
+        twin = None
+        saved = st.get(key_of(kind))
+        if kind == 'TimeDate' and isinstance(saved, dict):
+            twin = edzed.TimeDate('twin', **copy.deepcopy(saved))
+        elif kind == 'TimeSpan' and isinstance(saved, list):
+            twin = edzed.TimeSpan('twin', span=copy.deepcopy(saved))
         sim.circuit.set_persistent_data(st)
 
         async def driver():
@@ -318,6 +362,8 @@ def restart(cfg, storage, wall_us):
                 res['err'] = repr(err)
                 return
             res['state'], res['out'] = live_state(blk)
+            if twin is not None:
+                res['twin_out'] = twin.output
             res['aux'] = live_state(aux)
             res['elog'] = list(ELOG)
             # follow the restored timer to its expiry: when does the state change?
@@ -340,6 +386,10 @@ def restart(cfg, storage, wall_us):
 
 def default_state(kind):
     """State after a normal initialisation (no restore)."""
+    if kind == 'TimeDate':
+        return (edzed.TimeDate.parse(TD_ARGS['A'].get('times'), None, None), None)
+    if kind == 'TimeSpan':
+        return (edzed.TimeSpan.parse(TD_ARGS['S1']['span']), None)
     return {'Input': (0, 0), 'Counter': (3, 3), 'GenT': (('a', None, {}), 'a'),
             'Timer': (('off', None, {}), False),
             'InputExp': (None, None)}[kind]
@@ -416,7 +466,14 @@ def run_config(cfg):
                 if kind in ('GenT',) and res['elog']:
                     acc.violation(f"C06:entry-actions-replayed:{kind}",
                                   f"{label}+{down}s: {res['elog']!r} ran while restoring {entry!r}", cfg=cfg)
-                if sync and not failed and res['out'] != truth[1] and same_state(entry, truth[0]):
+                if kind in ('TimeDate', 'TimeSpan'):
+                    # the output follows the clock: it must be what a fresh block with the saved
+                    # configuration outputs at the restart instant
+                    if res.get('twin_out') is not res['out']:
+                        acc.violation(f"C06:restored-output-differs:{kind}",
+                                      f"{label}+{down}s: output {res['out']!r}, a fresh block with the "
+                                      f"saved configuration {entry!r} outputs {res.get('twin_out')!r}", cfg=cfg)
+                elif sync and not failed and res['out'] != truth[1] and same_state(entry, truth[0]):
                     acc.violation(f"C06:restored-output-differs:{kind}",
                                   f"{label}+{down}s: output {res['out']!r}, before the crash {truth[1]!r}", cfg=cfg)
                 if 's0' in res:
@@ -435,6 +492,8 @@ def run_config(cfg):
                 got = (res['state'], res['out'])
                 if kind == 'InputExp':
                     ok = res['state'][0] == 'valid' and res['out'] == 'iv'
+                elif kind in ('TimeDate', 'TimeSpan'):
+                    ok = same_state(got[0], dflt[0])
                 else:
                     ok = same_state(got[0], dflt[0]) and got[1] == dflt[1]
                 if not ok:
